@@ -180,6 +180,21 @@ example : ((resolve [] caseProg).bind (fun p => (eval 14 {} p).toOption)).map (f
   decide +kernel
 example : ((eval 14 {} caseProg).toOption).map (fun r => match r.1 with | .int i => i | _ => -1) = some 10 := by decide +kernel
 
+/-- `(do (define b 5) (let ([a (do (define b 1) 1)]) b))`: the initial value defines `b` inside the let's frame; the
+    reference in the body is announced (not yet defined) in the let's static scope, stays a dynamic lookup, and both runs
+    read 1 -/
+def letDefProg : Sx :=
+  .list true [.op .DO, .list true [.op .DEFINE, .sym "b" Option.none, .int 5],
+    .list true [.op .LET, .list true [.list true [.sym "a" Option.none,
+        .list true [.op .DO, .list true [.op .DEFINE, .sym "b" Option.none, .int 1], .int 1]]],
+      .sym "b" Option.none]]
+example : ((resolve [] letDefProg).bind (fun p => (eval 20 {} p).toOption)).map (fun r => match r.1 with | .int i => i | _ => -1) = some 1 := by
+  decide +kernel
+example : ((eval 20 {} letDefProg).toOption).map (fun r => match r.1 with | .int i => i | _ => -1) = some 1 := by decide +kernel
+example : predefine (predefine (boundScope ["a"]) [.sym "b" Option.none])
+    (letInits [.list true [.sym "a" Option.none, .list true [.op .DO, .list true [.op .DEFINE, .sym "b" Option.none, .int 1], .int 1]]])
+    = [("a", true), ("b", false)] := by decide +kernel
+
 /-! ## non-vacuity: an assignment two frames below its binding; a local recursive function shadowing a global -/
 
 def prog : Sx :=   -- (let ([a 1]) (let ([p 2]) ((fn [] (set [a (+ a 5)]))) a))
